@@ -99,6 +99,9 @@ def json_structured(machine, doc):
             if v.get("variants"):
                 child_uid = "%s-%s" % (uid, sorted(v["variants"])[0])
                 add("variant.child-entry:deleted", ["payload", "variants", child_uid], _DEL)
+                # the parent no longer lists its children: their records are orphans (top-level entries with a child's UID)
+                add("variant.children-list:deleted", base + ["variants"], _DEL)
+                add("variant.children-list:emptied", base + ["variants"], [])
                 if child_uid in p["variants"]:
                     add("variant.child-arch:not-in-parent", ["payload", "variants", child_uid, "arches"],
                         sorted(set(p["variants"][child_uid]["arches"]) | set(["zz-foreign"])))
